@@ -176,6 +176,14 @@ def gen_module(rng, modname, with_async_gen=False):
                    "async def use_agen(x):\n" + enter_line("use_agen", ["x"]) +
                    "    out = []\n    async for v in agen(x, 3):\n        out.append(v)\n    return _r.ret(_t, out)\n\n")
         funcs.append({"qual": "use_agen", "call": "use_agen", "kind": "coroutine", "mk": PARAM_SHAPES[0][2], "exit": "coro", "params": ["x"]})
+        # an asynchronous generator that is left after its first value and closed from outside (`aclose()`), or thrown into
+        # (`athrow()`), while it is suspended at a yield no `try` of its own covers: the call ends by that exception
+        src.append("async def use_agen_break(x):\n" + enter_line("use_agen_break", ["x"]) +
+                   "    a = agen(x, 3)\n    async for v in a:\n        break\n    tok = a.ag_frame.f_locals.get('_t')\n"
+                   "    if isinstance(x, int) and x % 2:\n        try:\n            await a.athrow(KeyError('thrown into agen'))\n"
+                   "        except KeyError:\n            pass\n    else:\n        await a.aclose()\n"
+                   "    _r.closed(tok)\n    return _r.ret(_t, 1)\n\n")
+        funcs.append({"qual": "use_agen_break", "call": "use_agen_break", "kind": "coroutine", "mk": PARAM_SHAPES[0][2], "exit": "coro", "params": ["x"]})
     # classes
     sig, names, mk = shape()
     msig = "self" + (", " + sig if sig else "")
